@@ -18,48 +18,31 @@ type Cond struct {
 	At  *ssa.If
 }
 
-// Dominates reports whether a dominates b (reflexive).
-func Dominates(a, b *ssa.BasicBlock) bool { return a == b || a.Dominates(b) }
+// Dominates reports whether a dominates b (reflexive) in the no-return-pruned CFG.
+func Dominates(a, b *ssa.BasicBlock) bool { return G(b.Parent()).Dominates(a, b) }
 
 // EdgeDominates reports whether every path to b passes through the CFG edge
 // from->to (to must be a successor of from).
 func EdgeDominates(from, to, b *ssa.BasicBlock) bool {
-	if !Dominates(to, b) {
-		return false
-	}
-	// Every path into `to` must come from `from`: all other predecessors of `to`
-	// must themselves be dominated by `to` (back edges).
-	for _, p := range to.Preds {
-		if p == from {
-			continue
-		}
-		if !Dominates(to, p) {
-			return false
-		}
-	}
-	// the same block may be both successors
-	if len(from.Succs) == 2 && from.Succs[0] == from.Succs[1] {
-		return false
-	}
-	return true
+	return G(b.Parent()).EdgeDominates(from, to, b)
 }
 
 // DomConds returns the branch conditions that hold on every path to b, with
-// their polarity, innermost last.  Conditions `!x` are unwrapped.
+// their polarity, outermost first.  Conditions `!x` are unwrapped.
 func DomConds(b *ssa.BasicBlock) []Cond {
+	g := G(b.Parent())
 	var out []Cond
-	for d := b.Idom(); d != nil; d = d.Idom() {
+	for d := g.Idom(b); d != nil; d = g.Idom(d) {
 		ifi, ok := lastIf(d)
-		if !ok {
+		if !ok || len(g.Succs(d)) != 2 {
 			continue
 		}
-		if EdgeDominates(d, d.Succs[0], b) {
+		if g.EdgeDominates(d, d.Succs[0], b) {
 			out = append(out, norm(Cond{ifi.Cond, true, ifi}))
-		} else if EdgeDominates(d, d.Succs[1], b) {
+		} else if g.EdgeDominates(d, d.Succs[1], b) {
 			out = append(out, norm(Cond{ifi.Cond, false, ifi}))
 		}
 	}
-	// reverse: outermost first
 	for i, j := 0, len(out)-1; i < j; i, j = i+1, j-1 {
 		out[i], out[j] = out[j], out[i]
 	}
@@ -217,6 +200,7 @@ func Calls(f *ssa.Function) []ssa.CallInstruction {
 // passing through blocks for which stop returns true (those are included but
 // not expanded).
 func Reachable(b *ssa.BasicBlock, stop func(*ssa.BasicBlock) bool) map[*ssa.BasicBlock]bool {
+	g := G(b.Parent())
 	seen := map[*ssa.BasicBlock]bool{}
 	var walk func(x *ssa.BasicBlock)
 	walk = func(x *ssa.BasicBlock) {
@@ -227,7 +211,7 @@ func Reachable(b *ssa.BasicBlock, stop func(*ssa.BasicBlock) bool) map[*ssa.Basi
 		if stop != nil && stop(x) {
 			return
 		}
-		for _, s := range x.Succs {
+		for _, s := range g.Succs(x) {
 			walk(s)
 		}
 	}
@@ -251,7 +235,7 @@ func InstrDominates(a, b ssa.Instruction) bool {
 	if a.Block() == b.Block() {
 		return InstrIndex(a) < InstrIndex(b)
 	}
-	return a.Block().Dominates(b.Block())
+	return Dominates(a.Block(), b.Block())
 }
 
 // RetResults returns the values a return instruction returns, seeing through
